@@ -295,7 +295,7 @@ Section P4.
   Proof.
     intros th factor spacing g g' H. unfold exec_ns_positioner.
     rewrite (aux_graph_iso factor spacing _ _ H), (iso_N_length H).
-    destruct (phase2 NetworkSimplex _ (aux_graph factor spacing g)) as [a|er]; cbn [bind]; [|apply rr_err].
+    destruct (assign_layers NetworkSimplex _ (aux_graph factor spacing g)) as [a|er]; cbn [bind]; [|apply rr_err].
     cbv zeta.
     pose proof (relayer_h_iso _ _ H) as H1.
     set (g1 := with_L g _) in *. set (g1' := with_L g' _) in *.
